@@ -79,6 +79,8 @@ class Profile(dict):
                                      ['1.0'], ['1.3']]),
             n_ili_files=rng.choice([0, 1, 2]),
             taxonomy=rng.choice([0.0, 0.5]),   # bias synset relations towards hypernym DAGs
+            p_no_synset_pos=0.0,               # Synset@partOfSpeech is optional in the DTD
+            p_frame_no_id=0.0,                 # lexicon-level SyntacticBehaviour@id is optional
         )
         p.update(forced)
         return p
@@ -200,6 +202,8 @@ class Gen:
     def new_synset(self, sid, ge11):
         ss = {'id': sid, 'ili': self.pick_ili(), 'partOfSpeech': self.rng.choice(POS),
               'meta': self.meta(), 'definitions': [], 'relations': [], 'examples': []}
+        if self.chance(self.p.get('p_no_synset_pos', 0.0)):
+            del ss['partOfSpeech']
         if ss['ili'] == 'in' and self.chance(0.8):
             ss['ili_definition'] = {'text': self.text(), 'meta': self.meta()}
         elif ss['ili'] and ss['ili'] != 'in' and self.chance(0.15):
@@ -349,18 +353,23 @@ class Gen:
             if local_senses and g.chance(g.p['p_lexframe_senses']):
                 fr = g.rng.choice(lex['frames'])
                 fr['senses'] = [g.rng.choice(local_senses)['id']]
+            if local_senses and frame_pool and g.chance(g.p.get('p_frame_no_id', 0.0)):
+                lex['frames'].append({'subcategorizationFrame': frame_pool.pop(),
+                                      'senses': [g.rng.choice(local_senses)['id']]})
         if not ge11 or g.chance(0.3):
+            # entry-level frames: the same frame string is normally shared by many entries
+            # (distinct within one entry; disjoint from this lexicon's lexicon-level frames)
+            entry_pool = list(frame_pool)
             for e in lex['entries']:
-                if e.get('external') or not e.get('senses') or not g.chance(0.4):
+                if e.get('external') or not e.get('senses') or not g.chance(0.5):
                     continue
                 sids = [s['id'] for s in e['senses'] if not s.get('external')]
-                if not sids:
+                if not sids or not entry_pool:
                     continue
-                for _ in range(g.rng.choice([1, 1, 2])):
-                    if not frame_pool:
-                        break
-                    fr = {'subcategorizationFrame': frame_pool.pop()}
-                    if g.chance(0.6):
+                k = min(len(entry_pool), g.rng.choice([1, 1, 2, 3]))
+                for frame in g.rng.sample(entry_pool, k):
+                    fr = {'subcategorizationFrame': frame}
+                    if g.chance(0.5):
                         fr['senses'] = g.rng.sample(sids, g.rng.randint(1, len(sids)))
                     e.setdefault('frames', []).append(fr)
 
